@@ -1,5 +1,5 @@
 (* Props/C01.v — the theorems that decide property C01.  Statements only. *)
-From CKB Require Import Chain.ForkChoice Chain.ForkChoiceProofs Chain.ForkChoiceExamples.
+From CKB Require Import Chain.ForkChoice Chain.ForkChoiceProofs Chain.ForkChoiceExamples Chain.Broker Chain.BrokerProofs.
 Local Open Scope N_scope.
 
 (* Any two delivery schedules of the same finite block set — any permutation,
@@ -69,6 +69,34 @@ Theorem c01_example_result :
   ftip_td (dcore (drun (d0 100) ex_sched2)) = 140 /\ ftip (dcore (drun (d0 100) ex_sched2)) = 4.
 Proof. exact ex_result. Qed.
 
+(* The delivery layer below "the parent has been processed" (chain/src/orphan_broker.rs,
+   Shared::get_block_status, the snapshot publication in chain/src/verify.rs): the broker decides by
+   is_pending_verify and by the BlockExt the PUBLISHED snapshot shows.  At every point of any
+   interleaving of deliveries (any order, duplicates) and verifications, with a snapshot published after
+   every verified block, that test equals "handed to the verify thread or verified", and whatever is
+   parked has a parent that has been neither handed over, nor verified, nor condemned. *)
+Theorem c01_parked_iff_parent_unhandled : forall ops,
+  let s := brun always binit ops in
+  (forall p, parent_there s p = handled s p) /\
+  (forall b, In b (s_orph s) -> handled s (bb_par b) = false /\ parent_invalid s (bb_par b) = false).
+Proof. exact parked_iff_parent_unhandled. Qed.
+
+(* a delivered block whose parent has been handed over or verified goes to the verify thread at once *)
+Theorem c01_child_of_handled_parent_is_queued : forall ops b,
+  let s := brun always binit ops in
+  handled s (bb_par b) = true -> In b (s_queue (accept1 s b)) /\ s_orph (accept1 s b) = s_orph s.
+Proof. exact child_of_handled_parent_is_queued. Qed.
+
+(* were the snapshot refreshed only for side blocks of the tip's epoch or later, the child of a verified
+   block of an earlier epoch would stay parked with the verify thread idle; the code's policy connects it *)
+Theorem c01_stale_snapshot_parks_refuted :
+  (let s := brun recent_only binit ex_ops in
+   memN 3 (s_ext s) = true /\ handled s 3 = true /\ parent_there s 3 = false /\
+   s_queue s = [] /\ s_orph s = [ex_side4] /\ brun recent_only s [BVerify; BVerify] = s) /\
+  (let s := brun always binit (ex_ops ++ [BVerify]) in
+   memN 4 (s_ext s) = true /\ s_orph s = [] /\ s_queue s = []).
+Proof. exact (conj recent_only_parks_child_of_verified always_connects_it). Qed.
+
 Redirect "out/C01.c01_order_independent" Print Assumptions c01_order_independent.
 Redirect "out/C01.c01_heaviest" Print Assumptions c01_heaviest.
 Redirect "out/C01.c01_records" Print Assumptions c01_records.
@@ -76,3 +104,6 @@ Redirect "out/C01.c01_strict_switch" Print Assumptions c01_strict_switch.
 Redirect "out/C01.c01_processing_order_independent" Print Assumptions c01_processing_order_independent.
 Redirect "out/C01.c01_example_hyps" Print Assumptions c01_example_hyps.
 Redirect "out/C01.c01_example_result" Print Assumptions c01_example_result.
+Redirect "out/C01.c01_parked_iff_parent_unhandled" Print Assumptions c01_parked_iff_parent_unhandled.
+Redirect "out/C01.c01_child_of_handled_parent_is_queued" Print Assumptions c01_child_of_handled_parent_is_queued.
+Redirect "out/C01.c01_stale_snapshot_parks_refuted" Print Assumptions c01_stale_snapshot_parks_refuted.
